@@ -1,11 +1,73 @@
-/- Model-driver operations of cluster A (see Driver/Main.lean): generated (Gen) and hand-written (Model) code models. -/
+/- Model-driver operations of cluster A (C01 parsing, C02 export, zone-file lines of C09). -/
 import PdbVerif.Driver.Json
+import PdbVerif.Model.Parse
 
 namespace Driver.ModelA
-open Lean Driver
+open Lean Driver Py
+
+def valJ : Val → Json
+  | .int i => .arr #[.str "i", intJ i]
+  | .real r => .arr #[.str "r", ratJ r]
+  | .text s => .arr #[.str "t", strJ s]
+
+def rowJ (r : Row) : Json := .arr (r.map valJ).toArray
+def rowsJ (rs : List Row) : Json := .arr (rs.map rowJ).toArray
+
+def strList (a : Array Json) : Except String (List Str) :=
+  a.toList.mapM fun j => do let s ← asStr j; pure s.toList
+
+def fsOf (j : Json) : Except String Model.FS := do
+  -- {"path": "...", "kind": "file"|"dir"|"none", "content": "..."}
+  match j.getObjVal? "fs" with
+  | .ok f =>
+    let p ← jStr f "path"
+    let k ← jStr f "kind"
+    if k = "file" then
+      let c ← jStr f "content"
+      pure (fun q => if q = p.toList then some (Model.Node.file c.toList) else none)
+    else if k = "dir" then pure (fun q => if q = p.toList then some Model.Node.dir else none)
+    else pure (fun _ => none)
+  | _ => pure (fun _ => none)
 
 def op (name : String) (j : Json) : Except String (Option Json) := do
   match name with
+  | "parse" =>
+    let form ← jStr j "form"
+    let fs ← fsOf j
+    let inp : Model.Input ←
+      match form with
+      | "str" => do let s ← jStr j "arg"; pure (Model.Input.str s.toList)
+      | "bytes" => do let s ← jStr j "arg"; pure (Model.Input.bytes s.toList)
+      | "path" => do let s ← jStr j "arg"; pure (Model.Input.path s.toList)
+      | "listStr" => do let l ← strList (← jArr j "arg"); pure (Model.Input.listStr l)
+      | "listBytes" => do let l ← strList (← jArr j "arg"); pure (Model.Input.listBytes l)
+      | "ndarrayStr" => do let l ← strList (← jArr j "arg"); pure (Model.Input.ndarrayStr l)
+      | "ndarrayBytes" => do let l ← strList (← jArr j "arg"); pure (Model.Input.ndarrayBytes l)
+      | f => throw s!"unknown form {f}"
+    pure (some (exceptJ rowsJ (Model.readTable fs inp)))
+  | "format" =>
+    let a ← atomOfJson (← jVal j "row")
+    pure (some (exceptJ strJ (Gen.data2pdb_line a)))
+  | "format_xyz" =>
+    let x ← jRat j "x"
+    pure (some (exceptJ strJ (Gen._format_xyz x)))
+  | "roundtrip" =>
+    let a ← atomOfJson (← jVal j "row")
+    -- export the row, parse the exported line again: what a derived database holds
+    let r : Except Err Row := do
+      let l ← Gen.data2pdb_line a
+      Model.parseAtomLine l a.model
+    pure (some (exceptJ rowJ r))
+  | "zone" =>
+    let chain ← jStr j "chain"; let num ← jInt j "num"
+    let r : Except Err (Str × Str × Int) := do
+      let l ← Gen.zone_line chain.toList num
+      let (c, n) ← Gen.read_zone_line l
+      pure (l, c, n)
+    pure (some (exceptJ (fun (l, c, n) => Json.mkObj [("line", strJ l), ("chain", strJ c), ("num", intJ n)]) r))
+  | "read_zone_line" =>
+    let l ← jStr j "line"
+    pure (some (exceptJ (fun (c, n) => Json.mkObj [("chain", strJ c), ("num", intJ n)]) (Gen.read_zone_line l.toList)))
   | _ => pure none
 
 end Driver.ModelA
